@@ -28,7 +28,7 @@ def _describe(tier):
                 'for key, token, EDB, result. non-trivial = keyword present.' % n,
         'bounds': 'N<=%d exhaustive over partitions' % n,
         'assumptions': ['a configuration that cannot set up is skipped and counted (C01/C08 own it)'],
-        'must_be_nonzero': ['key-roundtrip', 'token-roundtrip', 'edb-roundtrip', 'result-roundtrip', 'absent', 'patterned-keys', 'separate-config-object'],
+        'must_be_nonzero': ['key-roundtrip', 'token-roundtrip', 'edb-roundtrip', 'result-roundtrip', 'absent', 'patterned-keys', 'separate-config-object', 'prefix-values-covered/token', 'prefix-values-covered/key'],
     }
 
 
